@@ -129,14 +129,48 @@ func (s *String) ReadFrom(r io.Reader) (n int64, err error) {
 		return n, errors.New("string length less than zero")
 	}
 
-	bs := make([]byte, l)
-	if _, err := io.ReadFull(r, bs); err != nil {
+	bs, _, err := readDeclaredBytes(r, nil, int(l))
+	if err != nil {
 		return n, err
 	}
 	n += int64(l)
 
 	*s = String(bs)
 	return n, nil
+}
+
+// readDeclaredBytes reads n bytes, where n was declared by the input itself. Up to 64 KiB (or whatever buf
+// already holds) is read in one go; beyond that the buffer grows as the bytes arrive, so a length prefix far
+// larger than what follows costs an unexpected-EOF error and nothing else. It returns the buffer, the number
+// of bytes read into it and the error of the last read.
+func readDeclaredBytes(r io.Reader, buf []byte, n int) ([]byte, int, error) {
+	const step = 64 << 10
+	if n <= cap(buf) || n <= step {
+		if cap(buf) < n {
+			buf = make([]byte, n)
+		} else {
+			buf = buf[:n]
+		}
+		m, err := io.ReadFull(r, buf)
+		return buf, m, err
+	}
+	read := 0
+	for read < n {
+		c := min(n-read, max(step, read))
+		if cap(buf) < read+c {
+			grown := make([]byte, read+c)
+			copy(grown, buf[:read])
+			buf = grown
+		} else {
+			buf = buf[:read+c]
+		}
+		m, err := io.ReadFull(r, buf[read:read+c])
+		read += m
+		if err != nil {
+			return buf[:read], read, err
+		}
+	}
+	return buf, read, nil
 }
 
 // readByte read one byte from io.Reader
@@ -569,12 +603,8 @@ func (b *ByteArray) ReadFrom(r io.Reader) (n int64, err error) {
 	if Len < 0 {
 		return n1, errors.New("byte array length less than zero")
 	}
-	if cap(*b) < int(Len) {
-		*b = make(ByteArray, Len)
-	} else {
-		*b = (*b)[:Len]
-	}
-	n2, err := io.ReadFull(r, *b)
+	buf, n2, err := readDeclaredBytes(r, *b, int(Len))
+	*b = buf
 	return n1 + int64(n2), err
 }
 
@@ -622,18 +652,19 @@ func (b *BitSet) ReadFrom(r io.Reader) (n int64, err error) {
 	if Len < 0 {
 		return n, errors.New("bit set length less than zero")
 	}
-	if int(Len) > cap(*b) {
-		*b = make([]int64, Len)
-	} else {
-		*b = (*b)[:Len]
-	}
+	// the length comes from the peer: the set grows as the longs arrive
+	set := (*b)[:0]
 	for i := 0; i < int(Len); i++ {
-		n2, err := ((*Long)(&(*b)[i])).ReadFrom(r)
+		var v Long
+		n2, err := v.ReadFrom(r)
 		if err != nil {
+			*b = set
 			return n + n2, err
 		}
+		set = append(set, int64(v))
 		n += n2
 	}
+	*b = set
 	return
 }
 
